@@ -7,6 +7,7 @@ package c09
 
 import (
 	"context"
+	"errors"
 	"fmt"
 	"net"
 	"strings"
@@ -24,6 +25,8 @@ import (
 	"istio.io/istio/pilot/pkg/features"
 	"istio.io/istio/pkg/security"
 	"istio.io/istio/pkg/spiffe"
+	"istio.io/istio/security/pkg/pki/ca"
+	caerror "istio.io/istio/security/pkg/pki/error"
 	"istio.io/istio/security/pkg/pki/util"
 	"verif/harness/vlib"
 )
@@ -479,6 +482,20 @@ func execCreate(c *vlib.Collector, id int, env *createEnv, in createIn) {
 
 	// ---- observe
 	obs, tag := "", ""
+	if panicked || err != nil {
+		// hypothesis of the server glue (signErr.(*caerror.Error)): every error of the CA is a *caerror.Error
+		if _, derr := cfg.ca.Sign([]byte(in.csr.pem), ca.CertOpts{SubjectIDs: []string{"x"}, TTL: time.Duration(in.validity) * time.Second}); derr != nil {
+			var ce *caerror.Error
+			if errors.As(derr, &ce) && fmt.Sprintf("%T", derr) == "*error.Error" {
+				c.Hyp("ca_errors_are_caerror", 1)
+			} else {
+				pmsg += fmt.Sprintf(" [IstioCA.Sign returns an error of type %T for this CSR: %v]", derr, derr)
+				if !panicked {
+					c.Violate(vlib.Violation{ID: id, Kind: "oracle", Detail: "CA error is not a *caerror.Error:" + pmsg})
+				}
+			}
+		}
+	}
 	switch {
 	case panicked:
 		obs, tag = "OPanic", "obs=panic"
@@ -676,6 +693,8 @@ func TestGen(t *testing.T) {
 	lap("newca")
 	id = runHistories(t, c, root.Sub(), id, env)
 	lap("histories")
+	id = runErrMap(t, c, root.Sub(), id, env)
+	lap("errmap")
 	_ = id
 	c.Extra["timing_s"] = timing
 	if err := c.Flush(); err != nil {
